@@ -33,6 +33,9 @@ impl<const A: u64, const C: u64> Rand for LinearCongruentialGenerator64<A, C> {
     where
         R: Randomable<T>,
     {
-        range.gen_from_u64(self.next_raw())
+        // The low k bits of a power-of-two-modulus LCG have period 2^k, and ranges are reduced by a
+        // remainder, which looks at exactly those bits: fold the high half into the low half first.
+        let x = self.next_raw();
+        range.gen_from_u64(x ^ (x >> 32))
     }
 }
